@@ -390,6 +390,13 @@ func (f *Frame) assumeWellFormed(st *State, v *Term, t types.Type) {
 		if u.Info()&types.IsUnsigned != 0 {
 			f.c.assume(st, Ge(v, IntLit(0)))
 		}
+	case *types.Interface:
+		// a value of an interface type with methods never has a predeclared basic type as its dynamic type
+		if u.NumMethods() > 0 && v.Sort == SIfc {
+			for _, bt := range []types.Type{types.Typ[types.Bool], types.Typ[types.String], types.Typ[types.Int], types.Typ[types.Int64], types.Typ[types.Uint64], types.Typ[types.Float64]} {
+				f.c.assume(st, Ne(ifaceTag(v), f.c.tagOf(bt)))
+			}
+		}
 	case *types.Pointer, *types.Map:
 		al := f.c.heapGet(st, "ALLOC", ArrSort(SInt, SBool))
 		f.c.assume(st, Or(Eq(v, IntLit(0)), Select(al, v)))
